@@ -69,6 +69,10 @@ func resultVal(v ssa.Value, rs []Val) Val {
 
 func (fr *frame) callFunction(v ssa.Value, callee *ssa.Function, args, binds []Val, pos ssa.Instruction) Val {
 	u := fr.u
+	if fr.callLog == nil {
+		fr.callLog = map[string][][]Val{}
+	}
+	fr.callLog[callee.Name()] = append(fr.callLog[callee.Name()], args)
 	if r, ok := fr.intrinsic(v, callee, args, pos); ok {
 		return r
 	}
@@ -559,6 +563,11 @@ func (fr *frame) intrinsic(v ssa.Value, callee *ssa.Function, args []Val, pos ss
 		}
 		u.note("math.Float%dfrombits modelled as the IEEE-754 bit cast (trusted)", bits)
 		return Val{t: fmt.Sprintf("((_ to_fp %s) %s)", fpDims(bits), fr.term(args[0])), typ: callee.Signature.Results().At(0).Type()}, true
+	case "math.Abs":
+		if u.mode.FPOrder {
+			return Val{t: "(ite (>= " + fr.term(args[0]) + " 0.0) " + fr.term(args[0]) + " (- " + fr.term(args[0]) + "))", typ: types.Typ[types.Float64]}, true
+		}
+		return Val{t: "(fp.abs " + fr.term(args[0]) + ")", typ: types.Typ[types.Float64]}, true
 	case "math.IsNaN":
 		if u.mode.FPOrder {
 			return Val{t: "false", typ: types.Typ[types.Bool]}, true
